@@ -23,7 +23,8 @@ RULE = ("(exhaustive) every sequence of 0<len<=4 (quick) / <=6 (thorough) molecu
         "multi-residue instance adjacent to another instance of itself. Distinct = sha1 of the case JSON.")
 ASSUMPTIONS = [
     "'distinct residue signatures': no (residue name, size) kind is shared between species or with the solvent",
-    "coordinate files are written by the harness' fixed-column writer with residue numbers increasing by one per residue",
+    "coordinate files are written by the harness' fixed-column writer with residue numbers increasing by one per residue "
+    "(a fifth of the files start just below 99999 and cross the five-digit wrap; a third carry velocities; some use CRLF)",
 ]
 
 # name -> list of residues (resname, atom names)
@@ -53,6 +54,9 @@ def build_files(species, sequence, seed):
     records = []
     model = []         # (species name, first record index, n atoms, [resids])
     resid = int(rng.integers(1, 40))
+    if seed % 5 == 0:
+        resid = 99990 - int(rng.integers(0, 6))          # the residue numbers cross the five-digit wrap of the format
+    vel = seed % 3 == 0
     for sp in sequence:
         first = len(records)
         rids = []
@@ -61,17 +65,28 @@ def build_files(species, sequence, seed):
             rids.append(resid)
             for an in names:
                 xyz = np.round(rng.uniform(0, 30, 3), 3).tolist()
-                records.append((resid, rn, an, len(records) + 1) + tuple(xyz))
+                v = tuple(np.round(rng.uniform(-2, 2, 3), 4).tolist()) if vel else ()
+                records.append((resid, rn, an, len(records) + 1) + tuple(xyz) + v)
         model.append((sp, first, len(records) - first, rids))
     gro = env.fresh_path(".gro")
-    indep.write_gro(gro, "generated system", records, [30.0, 30.0, 30.0])
+    indep.write_gro(gro, "generated system", records, [30.0, 30.0, 30.0], newline="\r\n" if seed % 11 == 0 else None)
+    parsed = indep.read_gro(gro)["records"]
+    # residue numbers as the file shows them (wrapped into five digits)
+    fixed = []
+    for sp, first, n, rids in model:
+        shown, k = [], first
+        for rn, names in species[sp]:
+            shown.append(parsed[k][0])
+            k += len(names)
+        fixed.append((sp, first, n, shown))
+    model = fixed
     itps = {}
     for sp, residues in species.items():
         p = env.fresh_path(".itp")
         with open(p, "w") as f:
             f.write(species_itp(sp, residues))
         itps[sp] = p
-    return gro, itps, indep.read_gro(gro)["records"], model
+    return gro, itps, parsed, model
 
 
 def mol_view(mol):
